@@ -38,7 +38,7 @@ var K = 7
 `
 
 var verifC02Ops = []code{codeLocalGet, codeLocalSet, codeIncDec, codeAdd, codeSub, codeMul, codeDiv, codePush, codeConst, codeGet, codeSet,
-	codeGetAttr, codeSetAttr, codeCall, codeGlobalGet, codeJump, codePop, codeLt, codeNegate}
+	codeGetAttr, codeSetAttr, codeCall, codeGlobalGet, codeJump, codePop, codeLt, codeNegate, codeJumpFalse, codeJumpTrue}
 
 // verifC02Value builds an arbitrary value of kind k (numeric payloads symbolic).
 func verifC02Value(vm *VM, name string, k int) Value {
@@ -181,7 +181,7 @@ func verifH_C02_window() {
 			verifAssume(int(orig[i].A) == gi)
 		case codeCall:
 			verifAssume(verifAnd(int(orig[i].A) >= 0, int(orig[i].A) <= 2))
-		case codeJump:
+		case codeJump, codeJumpFalse, codeJumpTrue:
 			verifAssume(int(orig[i].A) == 0)
 		}
 	}
@@ -210,6 +210,11 @@ func verifH_C02_window() {
 		lk = []int{7, 8, 6, 11}
 	case 2:
 		lk = []int{9, 11}
+	}
+	for _, ins := range orig {
+		if ins.Code == codeJumpFalse || ins.Code == codeJumpTrue {
+			sk = []int{10} // conditional jumps consume a bool
+		}
 	}
 	ks := sk[verifChoice("k_s", len(sk))]
 	kinds := []int{lk[verifChoice("k_l0", len(lk))], lk[verifChoice("k_l1", len(lk))], ks, ks}
